@@ -375,6 +375,185 @@ def handleOp (e : Env) (fname : String) (n : Nat) (op : String) (d : Desc) (l : 
     if !c.isCyc a then some (unspecified "pre-false") else
     let m := if n == 12 then fmt (Flat.toFlat (fp12SqrCyc (fp2Ops e.base e.qnr) e.nor2 (Flat.ofFlat a))) else got
     some { model := m, spec := [fmt (d.sqr a)], tags := ["sqr_cyc"] }
+  | "sqr_pck", [a] | "sqr_pck_basic", [a] | "sqr_pck_lazyr", [a] =>
+    -- the harness presets the destination with the operand: the coefficients the function does not write keep it
+    let a ← el a
+    if n != 12 then none else
+    if !c.isCyc a then some (unspecified "pre-false") else
+    let sq := d.sqr a
+    let want := ((fp2Units a).zipIdx.map fun (u, i) => if pck12.contains i then (fp2Units sq).getD i [] else u).flatten
+    let m : Fp12 (V2 Nat) := fp12SqrPck (fp2Ops e.base e.qnr) e.nor2 (Flat.ofFlat a) (Flat.ofFlat a)
+    some { model := fmt (Flat.toFlat m), spec := [fmt want], tags := ["sqr_pck"] }
+  | "back_cyc", [a] =>
+    let a ← el a
+    if n != 12 then none else
+    -- judged by the defining property: same compressed coefficients, member of the cyclotomic subgroup. The formulas of
+    -- the model give the candidate; if it is not cyclotomic no cyclotomic element has these coefficients (theorem
+    -- back_cyc_unique) and the result is unspecified.
+    let m : List Nat := Flat.toFlat (fp12BackCyc (fp2Ops e.base e.qnr) e.nor2 (d.isOne a) (Flat.ofFlat a))
+    let degenerate := !d.isOne a && (fp2Units a).getD 3 [] == [0, 0] && (fp2Units a).getD 2 [] == [0, 0]
+    if degenerate then
+      -- g2 = g3 = 0 and the operand is not 1: only the identity has such a compressed form
+      if pck12.all (fun i => (fp2Units a).getD i [] == [0, 0]) then
+        some { model := "err", spec := [fmt d.one], tags := ["back_cyc-identity"] }
+      else some (unspecified "pre-false")
+    else if !c.isCyc m then some (unspecified "pre-false") else
+    match d.parse? got with
+    | some r => some { model := fmt m, spec := okOr (samePck12 a r && c.isCyc r) got (fmt m), tags := ["back_cyc"] }
+    | none => some { model := fmt m, spec := [fmt m], tags := ["back_cyc"] }
+  | "back_cyc_sim", k :: rest =>
+    let k ← k.toNat?
+    let as ← parseEls c (rest.take k)
+    if n != 12 then none else
+    -- the compressed form of the identity (all four coefficients zero) presented without the stale "1" in c[0][0]
+    let idc := fun (a : List Nat) => !d.isOne a && pck12.all (fun i => (fp2Units a).getD i [] == [0, 0])
+    let ms := as.map fun a => if idc a then d.one else
+      (Flat.toFlat (fp12BackCyc (fp2Ops e.base e.qnr) e.nor2 (d.isOne a) (Flat.ofFlat a)) : List Nat)
+    if !(ms.all c.isCyc) then some (unspecified "pre-false") else
+    let want := String.intercalate " " (ms.map fmt)
+    some { model := if as.any idc then "err" else want, spec := [want], tags := [if as.any idc then "back_cyc-identity" else "back_cyc_sim"] }
+  | "pck", [a] =>
+    let a ← el a
+    if n == 12 then
+      let v := if c.isCyc a then ((fp2Units a).zipIdx.map fun (u, i) => if i == 0 || i == 4 then [0, 0] else u).flatten else a
+      some { model := got, spec := [fmt v], tags := [if c.isCyc a then "pck-cyc" else "pck-copy"] }
+    else if n == 2 then
+      -- the parity bit is that of the Montgomery representation of a1; the flag coefficient is the raw digit vector 0/1
+      let R := 2 ^ (64 * ((e.bytes + 7) / 8))
+      let rinv := (Relic.Spec.Tower.pow (baseOps e.p) [R % e.p] (e.p - 2)).headD 0
+      let bit := (a.getD 1 0 * R % e.p) % 2
+      let v := if c.isCyc a then [a.getD 0 0, bit * rinv % e.p] else a
+      some { model := got, spec := [fmt v], tags := [if c.isCyc a then "pck-cyc" else "pck-copy"] }
+    else none
+  | "upk", [a] =>
+    let a ← el a
+    if n == 12 then
+      if !((fp2Units a).getD 0 [] == [0, 0] && (fp2Units a).getD 4 [] == [0, 0]) then
+        some { model := got, spec := ["r=1 " ++ fmt a], tags := ["upk-copy"] }
+      else if pck12.all (fun i => (fp2Units a).getD i [] == [0, 0]) then
+        some { model := got, spec := ["r=1 " ++ fmt d.one], tags := ["upk-identity"] }
+      else
+        let m : List Nat := Flat.toFlat (fp12BackCyc (fp2Ops e.base e.qnr) e.nor2 false (Flat.ofFlat a))
+        let degenerate := (fp2Units a).getD 3 [] == [0, 0] && (fp2Units a).getD 2 [] == [0, 0]
+        if degenerate then some (unspecified "pre-false") else
+        some { model := got, spec := [if c.isCyc m then "r=1 " ++ fmt m else "r=0"], tags := ["upk-cyc"] }
+    else if n == 2 then
+      let R := 2 ^ (64 * ((e.bytes + 7) / 8))
+      let raw1 := a.getD 1 0 * R % e.p
+      if raw1 > 1 then some { model := got, spec := ["r=1 " ++ fmt a], tags := ["upk-copy"] } else
+      if e.qnr != -1 then some (unspecified "upk-qnr-not-minus-one") else
+      -- a1 with a0² + a1² = 1 whose Montgomery representation has the given parity
+      match d.parse? ((got.drop 4).toString) with
+      | some r =>
+        let ok := got.startsWith "r=1 " && r.getD 0 0 == a.getD 0 0 && c.isUnitary r && (r.getD 1 0 * R % e.p) % 2 == raw1
+        some { model := got, spec := okOr ok got "r=1 <a0, the root of 1 - a0^2 with the flagged parity>", tags := ["upk-cyc"] }
+      | none =>
+        let t := (1 + e.p - a.getD 0 0 * a.getD 0 0 % e.p) % e.p
+        let isSq := t == 0 || (Relic.Spec.Tower.pow (baseOps e.p) [t] ((e.p - 1) / 2)).headD 0 == 1
+        some { model := got, spec := [if isSq then "r=1 <root>" else "r=0"], tags := ["upk-nonresidue"] }
+    else none
+  | "pck_max", [a] =>
+    let a ← el a
+    if n != 12 then none else
+    if !c.isCyc a then some { model := got, spec := [fmt a], tags := ["pckmax-copy"] } else
+    let d6 := d.below
+    let a0 := a.take 6; let a1 := a.drop 6
+    match d6.inv? a1 with
+    | none => some { model := "err", spec := ["err"], tags := ["pckmax-identity"] }
+    | some a1i => some { model := got, spec := [fmt (d6.mul (d6.add a0 d6.one) a1i ++ d6.zero)], tags := ["pckmax-cyc"] }
+  | "upk_max", [a] =>
+    let a ← el a
+    if n != 12 then none else
+    let d6 := d.below
+    if !d6.isZero (a.drop 6) then some { model := got, spec := ["r=1 " ++ fmt a], tags := ["upkmax-copy"] } else
+    -- (a0 + w)/(a0 − w)
+    let num := a.take 6 ++ d6.one
+    let den := a.take 6 ++ d6.neg d6.one
+    match d.inv? den with
+    | none => some { model := "err", spec := ["err"], tags := ["upkmax-noninvertible"] }
+    | some di =>
+      let v := d.mul num di
+      some { model := got, spec := [if c.isCyc v then "r=1 " ++ fmt v else "r=0"], tags := ["upkmax"] }
+  -- sparse multiplications ----------------------------------------------------------------------------------------------
+  | "mul_dxs", [a, b] | "mul_dxs_basic", [a, b] | "mul_dxs_lazyr", [a, b] =>
+    let a ← el a; let b ← el b; let b := if same then a else b
+    let z := fun (k : Nat) (u : Nat) (x : List Nat) => ((chunks k (x.length / k) x).getD u []).all (· == 0)
+    match n with
+    | 6 | 9 =>
+      -- third coefficient of b absent
+      let k := n / 3
+      if !z k 2 b then some (unspecified "pre-false") else
+      let m : List Nat :=
+        if n == 6 then Flat.toFlat (cubMulDxs (fp2Ops e.base e.qnr) e.nor2 (Flat.ofFlat a) (Flat.ofFlat b))
+        else Flat.toFlat (cubMulDxs (fp3Ops e.base e.cnr) e.nor3 (Flat.ofFlat a) (Flat.ofFlat b))
+      some { model := fmt m, spec := [fmt (d.mul a b)], tags := ["dxs" ++ toString n] }
+    | 8 =>
+      if !z 2 2 b then some (unspecified "pre-false") else
+      some { model := got, spec := [fmt (d.mul a b)], tags := ["dxs8"] }
+    | 12 =>
+      let dt := e.twist == 1
+      let sparse := if dt then z 2 1 b && z 2 2 b && z 2 5 b else z 2 2 b && z 2 3 b && z 2 5 b
+      if !sparse then some (unspecified "pre-false") else
+      let m : Fp12 (V2 Nat) := fp12MulDxs (fp2Ops e.base e.qnr) e.nor2 (if dt then .dtype else .mtype) (Flat.ofFlat a) (Flat.ofFlat b)
+      some { model := fmt (Flat.toFlat m), spec := [fmt (d.mul a b)], tags := [if dt then "dxs12-D" else "dxs12-M"] }
+    | _ => none
+  -- square roots ---------------------------------------------------------------------------------------------------------
+  | "is_sqr", [a] =>
+    let a ← el a
+    if !field then some (unspecified "not-a-field") else
+    let q := e.p ^ d.dim
+    let sq := d.isZero a || d.isOne (d.pow a ((q - 1) / 2))
+    some { model := got, spec := [if sq then "r=1" else "r=0"], tags := [if sq then "sqr" else "nonsqr"] }
+  | "srt", [a] =>
+    let a ← el a
+    if !field then some (unspecified "not-a-field") else
+    if got.startsWith "r=1 " then
+      match d.parse? ((got.drop 4).toString) with
+      | some r => some { model := got, spec := okOr (d.eq (d.sqr r) a) got "r=1 <a square root of the operand>", tags := ["srt-root"] }
+      | none => some { model := got, spec := ["r=1 <a square root of the operand>"] }
+    else
+      -- 'no root': Euler's criterion
+      let q := e.p ^ d.dim
+      let sq := d.isZero a || d.isOne (d.pow a ((q - 1) / 2))
+      some { model := got, spec := [if sq then "r=1 <a square root of the operand>" else "r=0"], tags := ["srt-none"] }
+  -- constants of the Frobenius map ---------------------------------------------------------------------------------------
+  | "mul_frb", [a, i, j] =>
+    let a ← el a; let i ← i.toNat?; let j ← j.toNat?
+    if n != 2 then none else
+    let d2 := d
+    let xi := e.xi
+    let k ← (if i == 1 && 1 ≤ j && j ≤ 5 then some (j * ((e.p - 1) / 6))
+             else if i == 2 && 1 ≤ j && j ≤ 4 then (let m := [4, 8, 12, 24].getD (j - 1) 4; some ((e.p - e.p % m) / m)) else none)
+    some { model := got, spec := [fmt (d2.mul a (d2.pow xi k))], tags := ["mul_frb" ++ toString i] }
+  -- serialisation ----------------------------------------------------------------------------------------------------------
+  | "write_bin", [a, len, pack] =>
+    let a ← el a; let len ← len.toNat?; let pack ← pack.toInt?
+    let full := String.join (a.map fun x => natToHexPad x (2 * e.bytes))
+    if pack ≤ 0 then
+      let okLen := if n == 2 then len ≥ 2 * e.bytes else len == n * e.bytes
+      -- fp2_write_bin accepts longer buffers and writes the first 2·bytes only
+      let out := if n == 2 then full ++ String.join (List.replicate (len - 2 * e.bytes) "5a") else full
+      some { model := got, spec := [if okLen then out else "err"], tags := ["write"] }
+    else some (unspecified "write-packed")
+  | "read_bin", [h] =>
+    let nb := if h == "." then 0 else h.length / 2
+    if nb != n * e.bytes then
+      -- other lengths: compressed forms (fp2: bytes+1, fp12: 8·bytes, …) are judged through pck/upk; else rejected
+      if (n == 2 && nb == e.bytes + 1) || (n == 12 && nb == 8 * e.bytes) || (n == 18 && nb == 12 * e.bytes) || (n == 24 && nb == 16 * e.bytes)
+          || (n == 48 && nb == 32 * e.bytes) || (n == 54 && nb == 36 * e.bytes) then some (unspecified "read-packed")
+      else some { model := "err", spec := ["err"], tags := ["read-badlen"] }
+    else
+      let cs := (List.range n).map fun i => parseHexNat ((h.drop (2 * e.bytes * i)).take (2 * e.bytes)).toString
+      if cs.all (fun x => match x with | some v => v < e.p | none => false) then
+        some { model := got, spec := [fmt (cs.map (·.getD 0))], tags := ["read"] }
+      else some { model := "err", spec := ["err"], tags := ["read-noncanonical"] }
+  | "size_bin", [a, pack] =>
+    let a ← el a; let pack ← pack.toInt?
+    let packed := pack > 0 && c.isCyc a
+    let sz := if !packed then n * e.bytes else match n with
+      | 2 => e.bytes + 1 | 8 => 4 * e.bytes | 12 => 8 * e.bytes | 16 => 8 * e.bytes | 18 => 12 * e.bytes | 24 => 16 * e.bytes
+      | 48 => 32 * e.bytes | 54 => 36 * e.bytes | _ => n * e.bytes
+    some { model := got, spec := ["r=" ++ toString sz], tags := ["size"] }
   | _, _ => none
 where
   invSimFlat (c : Cx) (as : List (List Nat)) : List (List Nat) :=
